@@ -1,5 +1,6 @@
 import QuantemModel.Lemmas.OriginFit
 import QuantemModel.Lemmas.OriginState
+import QuantemModel.Generated.OriginSurface
 /-!
 C18 — centre-of-mass origin estimation (Model/Origin.lean) is exact, path independent and batch
 invariant; constant / plane fits reproduce a surface the origins lie on; an integer shift is the
@@ -803,6 +804,34 @@ example :
                .edit 0 0 [[1, 0], [0, 0]], .setCom .held (some [[1, 1, 1]]) .none true, .preprocess .none false]).comMeasured
       = some ([[0, 1 / 2]], [[0, 3 / 4]]) := by
   decide +kernel
+
+
+/-! ### 7. the fitted families as the source states them NOW
+
+`Generated/OriginSurface.lean` is re-translated from `_plane`, `_parabola`, `_bezier_two` in
+`ptycho_utils.py` on every run (harness/translator/surface2lean.py).  The three theorems below tie
+the hand-written `surfaceF` — the object of `lsq_variants_exact`, `parabola_exact_on_raster`,
+`quad_unique` — to that translation; the tactics (`simp` with the carrier lemmas, then `ring`)
+survive renamed locals, reordered terms, introduced temporaries, `x ** 2` vs `x * x`. -/
+
+theorem generated_eq_spec_plane (xy : ℝ × ℝ) (mx my b : ℝ) :
+    Generated.OriginSurface.plane xy mx my b = surfaceF .plane [mx, my, b] xy := by
+  simp [Generated.OriginSurface.plane, surfaceF, NumReal.zero_eq, NumReal.one_eq, NumReal.two_eq]
+  try ring
+
+theorem generated_eq_spec_parabola (xy : ℝ × ℝ) (c0 cx1 cx2 cy1 cy2 cxy : ℝ) :
+    Generated.OriginSurface.parabola xy c0 cx1 cx2 cy1 cy2 cxy = surfaceF .parabola [c0, cx1, cx2, cy1, cy2, cxy] xy := by
+  simp [Generated.OriginSurface.parabola, surfaceF, NumReal.zero_eq, NumReal.one_eq, NumReal.two_eq]
+  try ring
+
+theorem generated_eq_spec_bezier_two (xy : ℝ × ℝ) (c00 c01 c02 c10 c11 c12 c20 c21 c22 : ℝ) :
+    Generated.OriginSurface.bezierTwo xy c00 c01 c02 c10 c11 c12 c20 c21 c22 =
+      surfaceF .bezierTwo [c00, c01, c02, c10, c11, c12, c20, c21, c22] xy := by
+  simp [Generated.OriginSurface.bezierTwo, surfaceF, NumReal.zero_eq, NumReal.one_eq, NumReal.two_eq]
+  try ring
+
+/-- the translated functions compute (exact carrier): `_parabola((2, 3), 1, 1, 1, 1, 1, 1) = 1+2+3+4+9+6` -/
+example : Generated.OriginSurface.parabola ((2 : Rat), (3 : Rat)) 1 1 1 1 1 1 = 25 := by decide +kernel
 
 
 end QuantemModel.Props.C18
